@@ -53,6 +53,10 @@ type Job struct {
 	Workers int `json:"workers,omitempty"`
 	// Events: include the event log in the result (replay / determinism tests)
 	Events bool `json:"events,omitempty"`
+	// escape jobs
+	MonoCheck bool `json:"mono_check,omitempty"`
+	Laws      int  `json:"laws,omitempty"`
+	LawSeed   int  `json:"law_seed,omitempty"`
 }
 
 // Out is the result of one job.
@@ -71,6 +75,8 @@ type Out struct {
 	C17Checks map[string]int  `json:"c17_checks,omitempty"`
 	Reports   map[string]Rept `json:"reports,omitempty"`
 	MapPar    *MapParOut      `json:"mappar,omitempty"`
+	Escape    *EscapeOut      `json:"escape,omitempty"`
+	MayPanic  *MayPanicOut    `json:"maypanic,omitempty"`
 	EventLog  []simrt.Event   `json:"events,omitempty"`
 	WallMS    int64           `json:"wall_ms"`
 	Summaries int             `json:"summaries,omitempty"`
@@ -438,6 +444,10 @@ func worker(outPath string, workDir string) {
 			runAnalysis(&j, out, workDir)
 		case "mappar":
 			runMapPar(&j, out)
+		case "escape":
+			runEscape(&j, out, workDir)
+		case "maypanic":
+			runMayPanic(&j, out, workDir)
 		default:
 			out.LoadErr = "unknown job kind " + j.Kind
 		}
